@@ -117,6 +117,10 @@ SN_SHAPES = {
     "nested-same-name-import": {"sn7a.py": "class A:\n    def m(self): ...\n", "sn7b.py": "from sn7a import A\nclass Outer:\n    class A(A):\n        pass\n"},
     # a base reached THROUGH an inherited member: Inner is declared by A, named as B.Inner
     "base-through-inherited-member": {"sn7a.py": "class A:\n    class Inner:\n        x = 1\nclass B(A):\n    pass\nclass C(B.Inner):\n    pass\nclass D(C, A.Inner):\n    pass\n"},
+    # a class whose BODY binds the name of one of its bases (an attribute, a nested class): the bases were evaluated before the body existed
+    "member-named-like-base": {"sn7a.py": "class Base:\n    def b(self): ...\nclass Options:\n    def o(self): ...\nclass Command(Base, Options):\n    Options = None\nclass Sub(Command):\n    pass\n"},
+    "nested-class-named-like-base": {"sn7a.py": "class Meta:\n    abstract = True\n    def m(self): ...\nclass Model(Meta):\n    class Meta:\n        x = 1\nclass Leaf(Model, Meta):\n    pass\n"},
+    "member-named-like-imported-base": {"sn7a.py": "class Options:\n    def o(self): ...\n", "sn7b.py": "from sn7a import Options\nclass Command(Options):\n    def Options(self): ...\n"},
     "with-mixin": {"sn7a.py": "class C:\n    pass\nclass Mixin:\n    pass\n", "sn7b.py": "from sn7a import C, Mixin\nclass C(Mixin, C):\n    pass\n"},
 }
 
@@ -132,6 +136,9 @@ V_SHAPES = {
     # a base written with three dotted parts (module of a package imported as `import pkg.mod`)
     "dotted-base": {"v7p/__init__.py": "", "v7p/core.py": "class Root:\n    def r(self): ...\nclass Base(Root):\n    def b(self): ...\n",
                     "v7q.py": "import v7p.core\nclass C(v7p.core.Base):\n    def c(self): ...\nclass D(C):\n    pass\n"},
+    # a subclass that OVERRIDES what it inherits, seen through import aliases: the override is what every view presents
+    "override-through-alias": {"v7a.py": "class Root:\n    def run(self): ...\n    def keep(self): ...\nclass Base(Root):\n    def run(self): ...\n    class N:\n        def n(self): ...\nclass Child(Base):\n    def run(self): ...\n    class N(Base.N):\n        def n(self): ...\n",
+                               "v7b.py": "from v7a import Child\nfrom v7a import Child as Kid\nfrom v7a import Base as B\nclass Local(Kid):\n    def keep(self): ...\n", "v7c.py": "from v7b import Kid as K2\nfrom v7b import Local\n"},
     "nested-two-levels": {"v7a.py": "class A:\n    class I:\n        class J:\n            def deep(self): ...\nclass B(A):\n    pass\nclass C(B):\n    class I(B.I):\n        pass\n"},
 }
 
